@@ -85,6 +85,11 @@ func values(thorough bool) []jv {
 		{name: "{a:\"x\"}", v: m("a", "x"), lit: `{a: "x"}`},
 		{name: "{a:1,c:\"Z\"}", v: m("a", 1, "c", "Z"), lit: "{a: 1, c: Z}"},
 		{name: "\"Z\"", v: "Z", lit: "Z"},
+		// strings that a float parser accepts although they are not numbers
+		{name: `"NaN"`, v: "NaN", lit: `"NaN"`},
+		{name: `"Inf"`, v: "Inf", lit: `"Inf"`},
+		{name: "{a:\"NaN\"}", v: m("a", "NaN"), lit: `{a: "NaN"}`},
+		{name: "{}-through-variable", v: m(), lit: "{}"},
 	}
 	if thorough {
 		vs = append(vs,
